@@ -28,9 +28,16 @@ func (t *Target) AccessDeniedHTTP(r *http.Request) bool {
 		return false
 	}
 
+	// a zone-scoped address (fe80::1%eth0) is matched by its address part
+	if i := strings.IndexByte(host, '%'); i >= 0 {
+		host = host[:i]
+	}
+
 	ip := net.ParseIP(host)
 	if ip == nil {
+		// the rules cannot be evaluated for this peer: do not let it pass
 		log.Printf("[WARN] failed to parse remote address %s", host)
+		return true
 	}
 
 	// check remote source and return if denied
